@@ -16,11 +16,14 @@ import (
 	"go/constant"
 	"go/token"
 	"go/types"
+	"regexp"
 	"sort"
 	"strings"
 
 	"golang.org/x/tools/go/ssa"
 )
+
+var absSliceRe = regexp.MustCompile(`^(src[\w.]*)\[(\d+):(\d+)\]$`)
 
 type SV struct {
 	K     string // int, bool, ref, slice, addr, tuple, opaque, str
@@ -112,6 +115,8 @@ type Scenario struct {
 	Inline func(f *ssa.Function) bool
 	// Assume fixes undetermined conditions by their description (true/false); unlisted ones fork.
 	Assume map[string]bool
+	// ZeroRecv: slice fields of the receiver that the scenario does not define are empty (fresh object).
+	ZeroRecv bool
 	// InlineGo evaluates the body of `go f()` in place when f is inlinable.
 	InlineGo bool
 	// MaxVisit bounds how often one block may be entered on a path (loop unrolling bound; default 3).
@@ -170,6 +175,7 @@ func (f *symFrame) clone() *symFrame {
 }
 
 type symEval struct {
+	curCall  *ssa.Call // the call being modelled (for models that need static types)
 	closures map[string]SV
 	sc       *Scenario
 	counter  int
@@ -337,14 +343,25 @@ func (ev *symEval) load(fr *symFrame, st *symState, addr SV, t types.Type) SV {
 	if strings.HasPrefix(addr.Desc, "make#") {
 		return zeroFor(t)
 	}
+	if ev.sc.ZeroRecv && strings.HasPrefix(addr.Desc, "recv.") {
+		if _, isSlice := t.Underlying().(*types.Slice); isSlice {
+			return zeroFor(t)
+		}
+	}
 	if isCellAddr(addr.Desc) {
 		z := zeroFor(t)
 		if z.K == "opaque" {
 			z.Desc = addr.Desc
+			if _, isStruct := t.Underlying().(*types.Struct); isStruct {
+				z.K = "struct"
+			}
 		}
 		return z
 	}
 	d := addr.Desc
+	if _, isStruct := t.Underlying().(*types.Struct); isStruct {
+		return SV{K: "struct", Desc: strings.TrimPrefix(d, "&")}
+	}
 	return defaultFor(t, strings.TrimPrefix(d, "&"))
 }
 
@@ -493,6 +510,15 @@ func (ev *symEval) runBlock(fr *symFrame, b *ssa.BasicBlock, idx int, st *symSta
 			addr := ev.val(fr, x.Addr)
 			v := ev.val(fr, x.Val)
 			st.heap[addr.Desc] = v
+			if v.K == "struct" && v.Desc != addr.Desc {
+				// struct assignment: copy the fields known for the source object
+				pre := v.Desc + "."
+				for k, fv := range st.heap {
+					if strings.HasPrefix(k, pre) {
+						st.heap[addr.Desc+"."+strings.TrimPrefix(k, pre)] = fv
+					}
+				}
+			}
 			if !strings.HasPrefix(addr.Desc, "cell:") {
 				st.trace = append(st.trace, Event{Kind: "store", What: addr.Desc, Args: []string{v.Desc}, In: fname(fr.fn)})
 			}
@@ -614,6 +640,7 @@ func (ev *symEval) doCall(fr *symFrame, st *symState, x *ssa.Call) ([]outcome, b
 		args = append(args, ev.val(fr, a))
 	}
 	id := calleeID(x)
+	ev.curCall = x
 	// builtins
 	if bi, ok := cc.Value.(*ssa.Builtin); ok {
 		switch bi.Name() {
@@ -875,6 +902,29 @@ func (ev *symEval) evalValue(fr *symFrame, st *symState, v ssa.Value) SV {
 		r := SV{K: "slice", Desc: base.Desc + "[" + lo + ":" + hi + "]"}
 		if base.K == "str" {
 			r.K = "str"
+		}
+		// re-base a slice of a numerically bounded slice: X[a:b][c:d] = X[a+c:a+d]
+		if m := absSliceRe.FindStringSubmatch(base.Desc); m != nil && (lov == nil || (lov.K == "int" && lov.Known)) && (hiv == nil || (hiv.K == "int" && hiv.Known)) {
+			var a, b2 int64
+			fmt.Sscan(m[2], &a)
+			fmt.Sscan(m[3], &b2)
+			l2, h2 := a, b2
+			if lov != nil {
+				l2 = a + lov.N
+			}
+			if hiv != nil {
+				h2 = a + hiv.N
+			}
+			r.Desc = fmt.Sprintf("%s[%d:%d]", m[1], l2, h2)
+		} else if base.Len != nil && base.Len.Known && !strings.Contains(base.Desc, "[") && (lov == nil || (lov.K == "int" && lov.Known)) && (hiv == nil || (hiv.K == "int" && hiv.Known)) && base.K == "slice" && strings.HasPrefix(base.Desc, "src") {
+			l2, h2 := int64(0), base.Len.N
+			if lov != nil {
+				l2 = lov.N
+			}
+			if hiv != nil {
+				h2 = hiv.N
+			}
+			r.Desc = fmt.Sprintf("%s[%d:%d]", base.Desc, l2, h2)
 		}
 		if pt, ok := x.X.Type().Underlying().(*types.Pointer); ok && x.Low == nil && x.High == nil {
 			if at, ok := pt.Elem().Underlying().(*types.Array); ok {
